@@ -5,14 +5,14 @@ TECHNIQUE = ("Lean 4 theorems over a hand-written executable model of hom_two_so
              "tied to the code on real setups with the eight grids re-evaluated through the public jsa_range")
 LEVEL_TEXT = ("Proved over the real/complex-arithmetic model for every side and every array: at zero delay with all six signal-idler grids "
               "equal, rate_ss = rate_ii = 1/2 (1 - tr(G^2)/tr(G)^2), so both visibilities equal tr(G^2)/tr(G)^2 = sum lambda^2/(sum lambda)^2 over the "
-              "eigenvalues of G = F^H F (= sum sigma^4/(sum sigma^2)^2); rate_ss, rate_ii in [0,1] for every delay; rate_si in [0, 1/2(1+N1'N2'/(N1 N2))] "
+              "eigenvalues of G = F^H F (= sum sigma^4/(sum sigma^2)^2); the by-name views (HashMap / serde map) file every channel under its own name and convert back to the same result; rate_ss, rate_ii in [0,1] for every delay; rate_si in [0, 1/2(1+N1'N2'/(N1 N2))] "
               "(partial: <= 1 under N1'N2' <= N1N2, automatic when signal and idler axes coincide). The Float run of the model agrees with "
               "hom_two_source_rate_series / SPDC::hom_two_source_rate_series / hom_two_source_visibilities within rel 1e-10.")
 LEVEL_NOTE = ("The array-level function takes JointSpectrum objects, so the eight grids are passed to the model as inputs, re-evaluated by the harness "
               "through the public JointSpectrum::jsa_range on the same eight (x-axis, y-axis) pairs the code uses; two-source delays of "
               "hom_two_source_time_delays are inputs as well. Purity oracle: nalgebra SVD of the complex matrix (abs 1e-9).")
-OPS = {"hom2", "hom2_vis"}
-TOL = {"hom2": ("rel", 1e-10, 1e-13), "hom2_vis": ("rel", 1e-10, 2e-13)}
+OPS = {"hom2", "hom2_vis", "hom2_named", "hom2_unnamed"}
+TOL = {"hom2": ("rel", 1e-10, 1e-13), "hom2_vis": ("rel", 1e-10, 2e-13), "hom2_named": ("exact",), "hom2_unnamed": ("exact",)}
 DEFAULT_TOL = ("exact",)
 RULE = ("family hom/two: random phase-matched setups (degenerate and non-degenerate) x sides 4-8 (quick) / 4-24 (thorough) x six kinds of range "
         "(optimum, identical axes, unequal widths, offset along/against the energy-conserving line, narrow far apart) x unsorted non-uniform delay lists {0, +-t, random[, random]} with the zero entry in any position (zero entry vs purity, every entry vs a single-delay call); "
@@ -20,7 +20,11 @@ RULE = ("family hom/two: random phase-matched setups (degenerate and non-degener
         "step counts for the three assert_eq!; the caller's integrator is the default in one case of three, otherwise Simpson 10/100/200 or "
         "Gauss-Legendre 6/16/40 (purity oracle and the eight grids sampled with the same integrator); family hom/twoloop: up to four different "
         "setups (a setup and length/bandwidth variants) on ONE common grid called in a loop from one call site - visibilities for all, delay scans "
-        "for all, reversed, random interleaving - each against its own SVD purity and its own eight grids")
+        "for all, reversed, random interleaving - each against its own SVD purity and its own eight grids; every result of "
+        "hom_two_source_visibilities / hom_two_source_rate_series is read through each public route by which a HomTwoSourceResult leaves the crate - "
+        "struct fields, HashMap::from(result) (channels by name), the way back HomTwoSourceResult::from(map), the serde map and its Deserialize - "
+        "and the statement's predicates are evaluated on the values of every route (K: hom2_named / hom2_unnamed, exact, including maps with a "
+        "missing channel, a single channel, a foreign key and permuted key order)")
 RESIDUAL = ("rate_si <= 1 for unequal signal/idler axes is not a theorem (it needs N1'N2' <= N1N2; the search hunts for a counterexample); "
             "model fidelity and rounding are measured by the comparison")
 CHECKER_MODULES = ["Spdc.Real.HomLemmas", "Spdc.Real.SchmidtLemmas", "Spdc.Real.TwoSrcLemmas"]
